@@ -113,13 +113,20 @@ def hidden_boot_history(rng, cfg):
             op['rr'] = rrn
         ops.append(op)
     add('/ZLAST.;1', rng.choice([1, 3000]), 'zlast')
-    add('/BOOT0.;1', rng.choice([64, 100, 2000, 2047, 2049, 3000, 5000]), 'boot0')
-    et = dict(k='add_eltorito', bootfile='/BOOT0.;1', catalog='/BOOT.CAT;1', boot_info_table=True)
+    add('/BOOT0.;1', rng.choice([64, 100, 2000, 2047, 2049, 3000, 5000, 70000]), 'boot0')
+    # without a boot info table the only recorded length is the load size, which may be smaller OR larger than the file: the
+    # file must keep all its bytes and only its own sectors through the reopen
+    et = dict(k='add_eltorito', bootfile='/BOOT0.;1', catalog='/BOOT.CAT;1', boot_info_table=rng.random() < 0.5)
     if cfg.rr:
         et['rr'] = 'boot.cat'
     if rng.random() < 0.6:
         et['boot_load_size'] = rng.choice([1, 4, 8])
     ops.append(et)
+    if rng.random() < 0.3:
+        # a second nameless boot file right behind the first
+        add('/BOOT1.;1', rng.choice([1, 3000]), 'boot1')
+        ops.append({'k': 'add_eltorito_section', 'bootfile': '/BOOT1.;1'})
+        ops.append({'k': 'rm_link', 'ns': 'iso', 'path': '/BOOT1.;1'})
     ops.append({'k': 'rm_link', 'ns': 'iso', 'path': '/BOOT0.;1'})
     rp = [len(ops)]
     for i in range(rng.randrange(1, 4)):
